@@ -94,18 +94,18 @@ func c20FileRead(bs uint32, nExt int) {
 			vp.AssertUnless("KF-C20-1", holeInRange, n > 0, "Read makes progress (0, nil forever would hang io.ReadAll)")
 		}
 	}
+	allEq := 1
 	for i := 0; i < L; i++ {
-		if i < n {
-			pos := off + int64(i)
-			in0 := uint64(pos-lo0) < uint64(hi0-lo0)
-			exp := vp.IteU8(in0, dev.ByteAt(int64(s0)*B+(pos-lo0)), 0)
-			if nExt == 2 {
-				in1 := uint64(pos-lo1) < uint64(hi1-lo1)
-				exp = vp.IteU8(in0, exp, vp.IteU8(in1, dev.ByteAt(int64(s1)*B+(pos-lo1)), 0))
-			}
-			vp.AssertUnless("KF-C20-1", holeInRange, p[i] == exp, "returned byte = device byte of the mapping extent, 0 in a hole")
+		pos := off + int64(i)
+		in0 := uint64(pos-lo0) < uint64(hi0-lo0)
+		exp := vp.IteU8(in0, dev.ByteAt(int64(s0)*B+(pos-lo0)), 0)
+		if nExt == 2 {
+			in1 := uint64(pos-lo1) < uint64(hi1-lo1)
+			exp = vp.IteU8(in0, exp, vp.IteU8(in1, dev.ByteAt(int64(s1)*B+(pos-lo1)), 0))
 		}
+		allEq &= c20b2i(i >= n) | c20b2i(p[i] == exp)
 	}
+	vp.AssertUnless("KF-C20-1", holeInRange, allEq == 1, "every returned byte = device byte of the mapping extent, 0 in a hole")
 	if n > 0 {
 		vp.Cover("bytes returned")
 	}
@@ -156,11 +156,11 @@ func VP_C20_fileread_unwritten() {
 	vp.Unwind(4)
 	n, err := fl.Read(p)
 	if err == nil || err == io.EOF {
+		zero := 1
 		for i := 0; i < L; i++ {
-			if i < n {
-				vp.AssertUnless("KF-C20-7", true, p[i] == 0, "bytes of an unwritten extent read as zeros")
-			}
+			zero &= c20b2i(i >= n) | c20b2i(p[i] == 0)
 		}
+		vp.AssertUnless("KF-C20-7", true, zero == 1, "bytes of an unwritten extent read as zeros")
 		vp.Cover("read over an unwritten extent returned data")
 	} else {
 		vp.Cover("read over an unwritten extent refused")
